@@ -47,6 +47,7 @@ CFG = {
     "targets": _T,
     "gaps": [
         "proved unconditionally for the executable model (Ops32.model = the mirrored 32-bit operations in exactly the forms ops.rs / cmp.rs / multiops.rs call them; hypothesis TWF on the operands): all 4 operators x 6 operand forms (C11_all_forms: result well-formed incl. removal of emptied partitions, elems = Spec set operation), is_subset / is_superset / is_disjoint, intersection_len, difference_len (the plain - never underflows), union_len and symmetric_difference_len = the cardinality mod 2^64 (exact unless the result is all 2^64 values: then the Rust wraps to 0 as well), MultiOps owned / borrowed = the fold (C11_multi) for EVERY min-extraction of the heap (C11_multi_any_heap) with fuel never exhausted early (C11_multi_fuel), Result forms (all Ok -> Ok of the fold; otherwise the first error). The 32-bit laws used are BinLaws (from C02/C08) and MultiLaws (C09 + well-formedness of the 32-bit multi-op results, Lemmas/TreemapMultiLaws.lean); the *_partial forms hold for every Ops32 satisfying them",
+        "model fidelity (notes/fidelity-treemap.md): all of treemap/ops.rs, cmp.rs, multiops.rs compared branch by branch with what the driver executes. Two simplifications were found and closed: is_disjoint is now run as written (filter(both Some) then all(unwrap..), Treemap.isDisjointMirror; isDisjointMirror_eq unconditional; C11_isDisjoint_mirror), and try_ordered_multi_op_owned is now run with the remove(&k) it performs on the OTHER operands (Treemap.orderedMultiOwnedMirror / multiMirror / multiTryMirror; orderedMultiOwnedMirror_eq / multiMirror_eq / multiTryMirror_eq under strictly ascending keys, i.e. TWF; C11_multi_mirror, C11_multiTry_mirror). Everything else (operand swaps, Entry flows, keys_to_remove, Pairs, heap loop with grouping and final flush, Result collection) was already mirrored",
         "BinaryHeap is modelled as 'extract an entry with minimal key' (IsExtractMin: any minimal entry, the others in any order); the executable model picks the first minimal entry",
     ],
     "assumptions": [
